@@ -33,6 +33,8 @@ ASSUMPTIONS = [
     "DTEND without DTSTART: `end` may return DTEND or raise IncompleteComponent (statement silent)",
 ]
 
+HISTORY_CHECK = True   # last runs of every chunk are re-observed alone in a fresh interpreter
+
 TIERS = {
     "quick":    {"runs": 240000,  "chunk": 7500,  "hash_seeds": [0], "max_ops": 12, "timeout": 900},
     "thorough": {"runs": 3200000, "chunk": 50000, "max_wall": 2400, "hash_seeds": [0], "max_ops": 16, "timeout": 3000},
